@@ -14,7 +14,7 @@ def sh(cmd, **kw):
 
 
 def main():
-    d = sys.argv[1].rstrip("/")
+    d = os.path.abspath(sys.argv[1].rstrip("/"))
     tier = "quick"
     args = [a for a in sys.argv[2:]]
     if "--tier" in args:
